@@ -114,3 +114,37 @@ def run_campaign(rep: common.Report, jobs, mine, timeout=900, extra_violation=No
         else:
             rep.note(f"trace {t['id']} rejected by clause {v['clause']} which belongs to {sorted(props)}; not examined further here")
     return out
+
+
+def run_order_campaign(rep: common.Report, jobs, timeout=600):
+    """Order-only tier (RexOrder): continuous-distribution and wall-clock episodes; every clause belongs to C03."""
+    results = common.run_jobs(jobs, timeout=timeout)
+    flat = []
+    for res in results:
+        job = res["job"]
+        if not res.get("ok"):
+            if res.get("timeout"):
+                rep.note(f"order job {job.get('id')} exceeded its wall-clock budget (inconclusive)")
+                continue
+            raise common.MachineryError(f"order job {job.get('id')} failed:\n{res.get('error', '')[-3000:]}")
+        for ev in res["events"]:
+            rep.note(f"order job {job.get('id')}: {ev['kind']} (lifecycle, left to C05): {ev['detail'][-300:]}")
+        for t in res["traces"]:
+            flat.append((job, t))
+    traces = [t for _, t in flat]
+    verdicts, stats = validate_parallel(traces, module="RexOrder")
+    rep.add_tlc(stats)
+    rep.cov["traces_validated_against_impl"] += len(traces)
+    rep.cov["evaluations"] += len(traces)
+    n_acc = 0
+    for (job, t), v in zip(flat, verdicts):
+        if v["verdict"] == "accept":
+            n_acc += 1
+            if any(len(m) > 2 for m in t["msgs"].values()):
+                rep.nontrivial(t["id"])
+            continue
+        replay = dict(kind="order_trace", job=job, trace_id=t["id"], verdict=v)
+        rep.violation(dict(clause="order:" + v["clause"]), replay,
+                      text=f"trace {t['id']} ({job['mode']}) rejected by RexOrder clause {v['clause']}: {v['detail'][:700]}")
+    return dict(order_traces=len(traces), order_accepted=n_acc,
+                by_mode={m: sum(1 for j, _ in flat if j["mode"] == m) for m in ("continuous", "wall")})
